@@ -7,7 +7,7 @@ from acverif.rl import (is_call, peel, peel_all, is_var, is_agg, is_const, self_
                         reachable_without, must_pass, line_of, decision_table, rewrite, expand_vars, atom, cmp_norm, cmp_true_when,
                         inline_closures, strip_convs, eq_cond, variant_name, var_defs_terms, param_at, param_of_type, unwrapped,
                         enum_gates, arm_edges, other_edges, result_gates, value_roots, Eval, EvalPanic, Unsupported)
-from acverif.sym import summarize, canon, cstr, TooManyPaths, enum_table, teval, row_holds, by_cstr
+from acverif.sym import summarize, canon, cstr, TooManyPaths, enum_table, teval, row_holds, row_consistent, by_cstr
 
 PERF = ('default', 'logging', 'perf')
 PI = '<util::prefilter::%s as util::prefilter::PrefilterI>::find_in'
@@ -435,50 +435,67 @@ def r10_1(cx):
 
 def r10_5(cx):
     b = cx.body('packed::api::Searcher::find_in')
-    hay = None
-    def cut_end(t):
-        """haystack[..span.end]"""
-        t = peel(t)
-        return is_call(t, r'core::ops::Index::index$') and is_var(peel(t[2][0]), 'haystack') and is_agg(t[2][1], r'RangeTo$') and span_field(t[2][1][3]['end'], 'end')
+    SELF, HAY, SPAN = (param_at(b, i) for i in (1, 2, 3))
+
+    def window_call(bb, c, recv_ok):
+        """callee(recv, &haystack[..span.end], span.start)"""
+        c = canon(c)
+        H, S = cstr(param_at(bb, 2)), cstr(param_at(bb, 3))
+        a = c[2]
+        return (len(a) == 3 and recv_ok(a[0]) and is_call(a[1], r'core::ops::Index::index$') and cstr(a[1][2][0]) == H and is_agg(a[1][2][1], r'RangeTo$')
+                and cstr(a[1][2][1][3]['end']) == S + '.end' and cstr(a[2]) == S + '.start')
+
+    def is_teddy_find(c):
+        return is_call(canon(c), r'packed::teddy::builder::Searcher::find$') and window_call(b, c, lambda r: cstr(r) == '(self.search_kind as Teddy).0')
+
+    def is_rk(bb, c):
+        return is_call(canon(c), r'packed::rabinkarp::RabinKarp::find_at$') and window_call(bb, c, lambda r: cstr(r) == 'self.rabinkarp')
+
+    def is_slow(c):
+        c = canon(c)
+        return is_call(c, r'Searcher::find_in_slow$') and [cstr(x) for x in c[2]] == [cstr(SELF), cstr(HAY), cstr(SPAN)]
+    rows = [r for r in summarize(cx.facts, b) if r.end == 'return']
+    kinds = [v['name'] for v in cx.facts.adts['packed::api::SearchKind']['variants']]
+    why = None
     n = 0
-    for pat, what in ((r'packed::teddy::builder::Searcher::find$', 'teddy'), (r'packed::rabinkarp::RabinKarp::find_at$', 'rabinkarp')):
-        for bi, t in b.calls(pat):
-            ct = b.call_term(bi, t)
-            n += 1
-            ok = cut_end(ct[2][1]) and span_field(ct[2][2], 'start')
-            cx.report('R10.5', b, what, ok, '%s receives (&haystack[..span.end], span.start)' % what if ok else '%s is called as %s: bytes beyond span.end become visible or the start is not span.start' % (what, tstr(ct, 200)), line_of(b, bi))
+    for ki, kn in enumerate(kinds):
+        for sl in (0, 1, 2):
+            for ml in (0, 1, 2):
+                def at(t, ki=ki, sl=sl, ml=ml):
+                    s = cstr(t)
+                    if s == 'discr(self.search_kind)':
+                        return ki
+                    if s == 'core::slice::len(core::ops::Index::index(%s, %s))' % (cstr(HAY), cstr(SPAN)):
+                        return sl
+                    if s.endswith('.minimum_len') or re.search(r'Searcher::minimum_len\(\(self\.search_kind as Teddy\)\.0\)$', s):
+                        return ml
+                    return None
+                sel = [r for r in rows if row_consistent(r, at)]
+                n += 1
+                if not sel:
+                    why = 'no path for search kind %s, span length %d, minimum_len %d' % (kn, sl, ml)
+                for r in sel:
+                    ret = r.ret
+                    if ret is None or ret[0] != 'call':
+                        why = 'find_in returns %s' % (tstr(ret, 100) if ret else None)
+                    elif kn == 'Teddy' and sl >= ml:
+                        if not is_teddy_find(ret):
+                            why = 'with a Teddy searcher and a span of at least minimum_len bytes find_in returns %s (expected teddy.find(&haystack[..span.end], span.start))' % tstr(canon(ret), 200)
+                    elif not (is_slow(ret) or is_rk(b, ret)):
+                        why = 'a span shorter than teddy.minimum_len() (or a Rabin-Karp searcher) is answered by %s (expected Rabin-Karp on (&haystack[..span.end], span.start))' % tstr(canon(ret), 200)
+                    if why:
+                        break
+                if why:
+                    break
+            if why:
+                break
+        if why:
+            break
+    cx.report('R10.5', b, 'teddy', why is None, 'Teddy runs only on spans of at least teddy.minimum_len() bytes and receives (&haystack[..span.end], span.start); everything else goes to Rabin-Karp with the same window (%d input classes tabulated)' % n if why is None else why)
     s = cx.body('packed::api::Searcher::find_in_slow')
-    for bi, t in s.calls(r'RabinKarp::find_at$'):
-        ct = s.call_term(bi, t)
-        n += 1
-        ok = cut_end(ct[2][1]) and span_field(ct[2][2], 'start')
-        cx.report('R10.5', s, 'rabinkarp-slow', ok, 'the short-haystack fallback receives (&haystack[..span.end], span.start)' if ok else 'find_in_slow calls %s' % tstr(ct, 200), line_of(s, bi))
-    cx.floor('R10.5', 'packed search dispatch sites', n, 3)
-    # length test on haystack[span]; short spans go to Rabin-Karp
-    slow = b.calls(r'Searcher::find_in_slow$')
-    ted = b.calls(r'packed::teddy::builder::Searcher::find$')
-    lg = []
-    for blk, sc in b.switches():
-        if sc[0] != 'bool':
-            continue
-        def fn(y):
-            if is_call(y, r'core::slice::len$') and hay_span(peel(y[2][0])):
-                return atom('SLEN')
-            if is_call(y, r'teddy::builder::Searcher::minimum_len$'):
-                return atom('MINLEN')
-            return None
-        c = rewrite(strip_convs(sc[1]), lambda y: fn(strip_convs(y)) if isinstance(y, tuple) else None)
-        cn = cmp_norm(c)
-        if cn == cmp_norm(('op', 'Lt', atom('SLEN'), atom('MINLEN'))):
-            lg.append((blk, [(blk, t) for t in sc[2]], [(blk, t) for t in sc[3]]))
-        elif cn is not None and negate(cn) == cmp_norm(('op', 'Lt', atom('SLEN'), atom('MINLEN'))):
-            lg.append((blk, [(blk, t) for t in sc[3]], [(blk, t) for t in sc[2]]))
-    ok = bool(lg) and len(ted) == 1 and len(slow) == 1 and not reachable_without(b, [ted[0][0]], [e for g in lg for e in g[2]]) and not reachable_without(b, [slow[0][0]], [e for g in lg for e in g[1]])
-    cx.report('R10.5', b, 'short-span-fallback', ok, 'Teddy runs only if haystack[span].len() >= teddy.minimum_len(); shorter spans go to Rabin-Karp' if ok else 'the Teddy / Rabin-Karp dispatch does not compare the span length with teddy.minimum_len()')
-    if slow:
-        ct = b.call_term(*slow[0])
-        oka = is_var(peel(ct[2][1]), 'haystack') and is_var(ct[2][2], 'span')
-        cx.report('R10.5', b, 'slow-args', oka, 'find_in_slow(haystack, span)' if oka else 'find_in_slow called as %s' % tstr(ct, 160))
+    srows = [r for r in summarize(cx.facts, s) if r.end == 'return']
+    oks = bool(srows) and all(r.ret is not None and r.ret[0] == 'call' and is_rk(s, r.ret) for r in srows)
+    cx.report('R10.5', s, 'rabinkarp-slow', oks, 'the short-haystack fallback receives (&haystack[..span.end], span.start)' if oks else 'find_in_slow returns %s' % [tstr(canon(r.ret), 160) if r.ret else None for r in srows][:2])
     f = cx.body('packed::api::Searcher::find')
     t = strip_convs(expand_vars(f, f.local_term(0, expand=True)))
     ok = is_call(t, r'Searcher::find_in$') and is_agg(t[2][2], r'Range$') and t[2][2][3]['start'] == ('c', 0) and is_call(t[2][2][3]['end'], r'core::slice::len$')
@@ -527,84 +544,4 @@ def r10_5(cx):
     cx.report('R15.2', t, 'entry-assert', okas, 'assert!(haystack[at..].len() >= self.minimum_len) dominates the unsafe Teddy call' if okas else 'the Teddy entry is reachable without the minimum-length assertion')
 
 
-def r10_6(cx):
-    b = cx.body('packed::rabinkarp::RabinKarp::find_at')
-    AT = ('v', 'at', b.locals_named('at')[0])
-
-    def fn(y):
-        if y == AT:
-            return atom('AT')
-        if self_field(y, 'hash_len'):
-            return atom('HL')
-        if is_call(y, r'core::slice::len$') and is_var(peel(y[2][0]), 'haystack'):
-            return atom('LEN')
-        return None
-    # window reads: haystack[at..at+hash_len] only after at + hash_len <= len ; haystack[at + hash_len] only after at + hash_len < len
-    gates = []
-    for blk, sc in b.switches():
-        if sc[0] != 'bool':
-            continue
-        c = rewrite(strip_convs(sc[1]), fn)
-        cn = cmp_norm(c)
-        if cn is None or 'AT' not in cn[2] or 'LEN' not in cn[2]:
-            continue
-        gates.append((blk, c, sc))
-    hashc = b.calls(r'RabinKarp::hash$')
-    upd = b.calls(r'RabinKarp::update_hash$')
-    ver = b.calls(r'RabinKarp::verify$')
-    ok1 = False
-    if hashc:
-        ct = b.call_term(*hashc[0])
-        w = peel(ct[2][1])
-        if is_call(w, r'Index::index$') and is_agg(w[2][1], r'core::ops::Range$'):
-            s, e = rewrite(w[2][1][3]['start'], fn), rewrite(w[2][1][3]['end'], fn)
-            okw = affine_str(s) == '+AT' and affine_str(e) == '+AT +HL'
-            cut = []
-            for blk, c, sc in gates:
-                # edges on which at + hl <= len may be false must be cut: keep only edges implying at+hl <= len
-                v_eq = cmp_true_when(c, {'AT': 0, 'HL': 5, 'LEN': 5})
-                v_gt = cmp_true_when(c, {'AT': 0, 'HL': 6, 'LEN': 5})
-                if v_eq is None or v_gt is None or v_eq == v_gt:
-                    continue
-                cut += [(blk, t) for t in (sc[2] if v_eq else sc[3])]
-            ok1 = okw and bool(cut) and not reachable_without(b, [hashc[0][0]], cut)
-    cx.report('R10.6', b, 'initial-window', ok1, 'the initial hash window haystack[at..at+hash_len] is read only if at + hash_len <= haystack.len()' if ok1 else 'the initial window is read without the at + hash_len <= len test')
-    ok2 = False
-    if upd:
-        ct = b.call_term(*upd[0])
-        a_old, a_new = rewrite(ct[2][2], fn), rewrite(ct[2][3], fn)
-        okidx = a_old[0] == 'idx' and affine_str(a_old[2]) == '+AT' and a_new[0] == 'idx' and affine_str(a_new[2]) == '+AT +HL'
-        cut = []
-        for blk, c, sc in gates:
-            v_eq = cmp_true_when(c, {'AT': 0, 'HL': 5, 'LEN': 5})
-            v_lt = cmp_true_when(c, {'AT': 0, 'HL': 4, 'LEN': 5})
-            if v_eq is None or v_lt is None or v_eq == v_lt:
-                continue
-            if blk in b.loops().get(max(b.loops(), key=lambda h: len(b.loops()[h])), set()) if b.loops() else False:
-                cut += [(blk, t) for t in (sc[2] if v_lt else sc[3])]
-        ok2 = okidx and bool(cut) and not reachable_without(b, [upd[0][0]], cut, src=(hashc[0][0] if hashc else 0))
-    cx.report('R10.6', b, 'rolling-step', ok2, 'the rolling step reads haystack[at] and haystack[at + hash_len] only if at + hash_len < haystack.len()' if ok2 else 'the rolling step can read haystack[at + hash_len] at or beyond the end')
-    ok3 = False
-    if ver:
-        ct = b.call_term(*ver[0])
-        ok3 = is_var(peel(ct[2][2]), 'haystack') and ct[2][3] == AT
-    cx.report('R10.6', b, 'verify-at', ok3, 'candidates are verified at the current position' if ok3 else 'verification does not use (haystack, at)')
-    ats = var_defs_terms(b, AT[2])
-    ok4 = all(affine_str(rewrite(t, fn)) == '+AT +1' for bi, si, t in ats) and len(ats) >= 1
-    cx.report('R10.6', b, 'step', ok4, 'at advances by exactly 1 per rolling step' if ok4 else 'at is updated as %s' % [tstr(t, 60) for _, _, t in ats])
-    v = cx.body('packed::rabinkarp::RabinKarp::verify')
-    okv = False
-    for bi, t in v.calls(r'Pattern::is_prefix$'):
-        ct = v.call_term(bi, t)
-        w = peel(ct[2][1])
-        okv = is_call(w, r'Index::index$') and is_var(peel(w[2][0]), 'haystack') and is_agg(w[2][1], r'RangeFrom$') and is_var(w[2][1][3]['start'], 'at')
-    cx.report('R10.6', v, 'verify-slice', okv, 'verify checks is_prefix on haystack[at..]' if okv else 'verify does not slice haystack[at..]')
-    mt = None
-    for bi, t in v.calls(r'util::search::Match::(new|must)$|Match::from'):
-        mt = expand_vars(v, v.call_term(bi, t), keep=('at', 'pat', 'id'))
-    okm = False
-    if mt is not None:
-        rg = peel(mt[2][1])
-        if is_agg(rg, r'core::ops::Range$'):
-            okm = is_var(rg[3]['start'], 'at') and rg[3]['end'][0] == 'op' and rg[3]['end'][1] == 'Add' and is_var(rg[3]['end'][2], 'at') and is_call(rg[3]['end'][3], r'Pattern::len$')
-    cx.report('R10.6', v, 'match-span', okm, 'verified match = at .. at + pat.len()' if okm else 'verify builds %s' % (tstr(mt, 200) if mt else None))
+from rules.rabinkarp import r10_6  # noqa: E402,F401
